@@ -24,18 +24,40 @@ pub fn parse_payload(s: &str) -> Vec<u8> {
 }
 fn parse_wsched(s: &str) -> Vec<Option<usize>> {
     if s == "-" { return vec![]; }
-    s.split(',').map(|t| if t == "x" { None } else { Some(t.parse().unwrap()) }).collect()
+    s.split(',').map(|t| if t == "x" || t == "w" || t == "t" || t == "r" { None } else { Some(t.parse().unwrap()) }).collect()
+}
+/// error kinds of the failing calls: x BrokenPipe, w WouldBlock, t TimedOut, r ConnectionReset
+fn parse_werr(s: &str) -> Vec<std::io::ErrorKind> {
+    use std::io::ErrorKind::*;
+    s.split(',').filter_map(|t| match t { "x" => Some(BrokenPipe), "w" => Some(WouldBlock), "t" => Some(TimedOut), "r" => Some(ConnectionReset), _ => None }).collect()
+}
+
+/// several messages written one after the other on the SAME link (`p1/p2/...`)
+fn run_multi(toks: &[&str], em: &mut Emitter) {
+    let line = toks.join(" ");
+    let payloads: Vec<Vec<u8>> = toks[1].split('/').map(parse_payload).collect();
+    let ws = parse_wsched(toks[2]);
+    let we = parse_werr(toks[2]);
+    em.case(&line, move || {
+        let pipe = Pipe::new(vec![], vec![]).with_wsched(ws).with_werr(we);
+        let mut t = tpkt::Client::new(Link::new(Stream::Raw(pipe.clone())));
+        let mut res = vec![];
+        for p in payloads { res.push(if t.write(p).is_ok() { "ok" } else { "E" }); }
+        Obs::new(format!("{} {}", res.join(","), show_out(&pipe.written()))).nt(true)
+    });
 }
 
 pub fn run_case(toks: &[&str], em: &mut Emitter) {
+    if toks[0] == "tpkt_writes" { return run_multi(toks, em); }
     let line = toks.join(" ");
     let op = toks[0].to_string();
     let payload = parse_payload(toks[1]);
     let ws = parse_wsched(toks[2]);
+    let we = parse_werr(toks[2]);
     em.case(&line, move || {
         let refused_by_stream = ws.iter().any(|a| a.is_none() || *a == Some(0));
         let plen = payload.len();
-        let pipe = Pipe::new(vec![], vec![]).with_wsched(ws);
+        let pipe = Pipe::new(vec![], vec![]).with_wsched(ws).with_werr(we);
         let t = tpkt::Client::new(Link::new(Stream::Raw(pipe.clone())));
         let r = if op == "x224_write" {
             let mut x = x224::Client::verif_new(t, x224::Protocols::ProtocolSSL);
@@ -99,6 +121,21 @@ pub fn generate(thorough: bool, seed: u64, part: (usize, usize), em: &mut Emitte
                 emit(em, "tpkt_write", &format!("pat:{}:3", len), &vec![cap.to_string(); calls + 2].join(","));
             }
         }
+    }
+    if part.0 == 0 {
+        // sequences of messages of shrinking / growing / equal sizes on one link
+        for _ in 0..(if thorough { 2000 } else { 200 }) {
+            let k = r.range(2, 5);
+            let ps: Vec<String> = (0..k).map(|i| { let len = match r.below(4) { 0 => r.below(4), 1 => r.below(40), 2 => r.below(300), _ => r.below(3000) } as usize; format!("pat:{}:{}", len, i + 1) }).collect();
+            let w = if r.chance(1, 2) { "-".to_string() } else { gen_wsched(&mut r, 40) };
+            emit(em, "tpkt_writes", &ps.join("/"), &w);
+        }
+        // every kind of stream error, at every call position of a small frame
+        for kind in &["x", "w", "t", "r"] { for pos in 0..6usize { for cap in &[1usize, 3, 100] {
+            let mut v: Vec<String> = vec![cap.to_string(); pos]; v.push(kind.to_string()); v.push("100".into());
+            emit(em, "tpkt_write", "pat:9:4", &v.join(","));
+            emit(em, "tpkt_writes", "pat:9:4/pat:3:5", &v.join(","));
+        } } }
     }
     let n = if thorough { 20000 } else { 2000 };
     for _ in 0..n {
